@@ -13,7 +13,7 @@ from ..pools import pick, subset, hexstr
 
 ID = "C16"
 LEVEL = "exploration"
-RUNS = {"quick": 1600, "thorough": 40000}
+RUNS = {"quick": 3200, "thorough": 40000}
 REQUIRED_FAULTS = ["F6.eio_on_open", "F6.eio_at_offset", "F6.eacces_on_open", "F3.bare_legacy_digests", "F5.refused_api_call"]
 MACHINES = ["M-TI", "M-IM"]
 
